@@ -97,7 +97,7 @@ func runC07Churn(run *Run, seed int64, sc faultScn, rng *rand.Rand) (out []*c01R
 // node at the same instant through different goroutines (packet handler,
 // stream handlers, local API), without waiting in between.
 func runC07Burst(run *Run, seed int64, rounds int, rng *rand.Rand) (out []*c01Result, cells map[string]int64, events int64) {
-	rig, x, y, err := newC01Rig(seed, c01Cfg{Reclaim: 2 * time.Second})
+	rig, x, y, err := newC01Rig(seed, c01Cfg{Reclaim: 2 * time.Second, AliveYield: seed%2 == 0})
 	if err != nil {
 		return []*c01Result{{"C07/harness/create", err.Error()}}, nil, 0
 	}
@@ -128,9 +128,28 @@ func runC07Burst(run *Run, seed int64, rounds int, rng *rand.Rand) (out []*c01Re
 				_ = rig.deliver(c, via)
 			}
 		}
-		if rng.Intn(4) == 0 {
+		switch rng.Intn(8) {
+		case 0, 1:
 			rig.V.Del.SetMeta([]byte(fmt.Sprintf("vm%d", r)))
 			go func() { _ = rig.V.ML().UpdateNode(time.Second) }()
+		case 2:
+			// the application's metadata has changed but UpdateNode has not been called yet, and an
+			// accusation about the node itself arrives: whatever the refutation announces, the node's
+			// own entry in Members() may only change together with an update event
+			rig.V.Del.SetMeta([]byte(fmt.Sprintf("pending-meta-%d", r)))
+			own := rig.V.Record("V")
+			if own != nil {
+				kind := rng.Intn(3)
+				switch kind {
+				case 0:
+					x.Send(Enc(TSuspect, &WSuspect{Incarnation: own.Incarnation, Node: "V", From: "x"}))
+				case 1:
+					x.Send(Enc(TDead, &WDead{Incarnation: own.Incarnation + 1, Node: "V", From: "y"}))
+				case 2:
+					x.Send(Enc(TAlive, &WAlive{Incarnation: own.Incarnation + 2, Node: "V", Addr: own.Addr, Port: own.Port, Meta: []byte("someone-elses"), Vsn: own.Vsn[:]}))
+				}
+				run.Cell("burst", "self-accusation-with-pending-meta", []string{"suspect", "dead", "alive"}[kind])
+			}
 		}
 		Settle(time.Duration(rng.Intn(3)) * time.Second)
 		rig.C.CheckQuiescent()
